@@ -261,6 +261,9 @@ structure Env where
   name : String                      -- mocker.String()
   render : Val → Option String       -- fmt.Sprintf("%v", ·)
   orig : List Val → List Val         -- the original function (argument list without receiver)
+  /-- the mocked function is one the console logger itself calls while formatting a line
+      (logger.go:293 layoutf → callerFn → logger.go:358 caller → strconv.Itoa, …): finding F14 -/
+  loggerCalls : Bool := false
 
 inductive Out
 | ret (vs : List Val)
@@ -370,7 +373,10 @@ def afterCall (env : Env) (args results : List Val) (s : St) : Out × St :=
   else
     match sprintV env.render args, sprintV env.render results with
     | some a, some r =>
-      (.ret results, consolefc s debugLevel ("mocker [" ++ env.name ++ "] called, args [" ++ a ++ "], results [" ++ r ++ "]"))
+      -- Consolefc formats the line only if the level is on (logger.go:264); formatting calls the patched function,
+      -- i.e. this wrapper again, without bound: the process dies of stack overflow
+      if env.loggerCalls && decide (debugLevel ≤ s.console) then (.crash, { s with dead := true })
+      else (.ret results, consolefc s debugLevel ("mocker [" ++ env.name ++ "] called, args [" ++ a ++ "], results [" ++ r ++ "]"))
     | _, _ => (.crash, { s with dead := true })
 
 def failOut (s : St) (cls : String) : Out × St := (.pan cls, s)
@@ -594,9 +600,14 @@ def outTok (s : St) (o : Out) : String :=
   | .pan c => ev ++ "->p:" ++ c
   | .crash => ev ++ "->CRASH"
 
+/-- perform the requested (re-)installation.  Every doApply / applyByIFaceMethod ends with
+    `logger.Consolefc(DebugLevel, "mocker [%s] apply.", logger.Caller(..), ..)` (mocker.go:248, :467, iface.go:190), executed
+    with the patch already in place: if the console level is on (then the installed function is wrapped) and the
+    target is a function the logger calls, that log call enters the wrapper, whose own log call enters it again: F14. -/
 def applyReq (env : Env) (s : St) : Option (Fn × Option PF) → St
   | none => s
-  | some (imp, pf) => install env s imp pf
+  | some (imp, pf) =>
+    if env.loggerCalls && s.isDebugOpen then { install env s imp pf with dead := true } else install env s imp pf
 
 /-- one operation of a scenario; returns the new state and the transcript token of the operation -/
 def step (env : Env) (s : St) (op : Op) : St × String :=
@@ -618,7 +629,8 @@ def step (env : Env) (s : St) (op : Op) : St × String :=
     | .troff => ({ s with console := warningLevel, loglevel := infoLevel }, "ok")   -- logger.go:113
   | op =>
     let r := cfgStep env s.ws op
-    (applyReq env { s with ws := r.1 } r.2.1, r.2.2)
+    let s1 := applyReq env { s with ws := r.1 } r.2.1
+    (s1, if s1.dead then "->CRASH" else r.2.2)
 
 /-- a whole scenario; stops when the process is dead -/
 def run (env : Env) : St → List Op → List String × St
